@@ -36,7 +36,11 @@ MANIFEST = {
             "executions then failure; success on attempt k => k executions; non-retriable => 1); a direct task is "
             "`t(args).result` / the aggregated group; for EVERY program in which each launched invocation's result is requested "
             "(explicit guard req_prog) and an exception serialiser that is the identity, run_dist = run_sync (outcome, per-node "
-            "execution counts, num_retries) by mutual induction on the program. The full-strength statement is kept as a "
+            "execution counts, num_retries) by mutual induction on the program - programs that repeat an argument set inside "
+            "one parallelized list included: the group case uses the fact generated from task.py distribute_calls (sync branch: "
+            "one fresh invocation appended per element), a repeated member runs once per occurrence in both modes, and "
+            "shared_group_invocation_refuted shows the fact is load-bearing (sharing the invocation of the earlier identical "
+            "element: same value, 1 execution in sync mode vs 2 distributed). The full-strength statement is kept as a "
             "Definition and REFUTED (sync mode is lazy: a never-read sub-task / a group member after a failing one runs 0 times "
             "in sync mode, once distributed); the serialiser hypothesis is shown necessary (an argument-dropping serialiser changes "
             "the outcome); retry_race_refuted: while set_invocation_retry publishes RETRY before incrementing, the schedule 're-run "
@@ -51,7 +55,12 @@ MANIFEST = {
             "exhibited under the harness schedule delay-increment, and by chance in long runs); exc-args-lost:<Type> was fixed in "
             "/repo by b9020c7 (C19-pynencerror-args.diff is the same repair). Real ThreadRunner in a thread with 2 ms loop "
             "sleeps; verdict observations (outcome, execution counts, final num_retries) do not depend on timing for pure bodies; "
-            "groups whose members can fail with different exceptions are not generated (completion order would pick the winner).",
+            "groups whose members can fail with different exceptions are not generated (completion order would pick the winner). "
+            "Node ids name argument sets: the generators and the corpus repeat calls (same id = same spec = same call_id) inside "
+            "one group / one body, list elements are spelled as dict / tuple / Arguments; sync-mode laziness is recognised "
+            "per statement from the sync run's call tree (a group element whose result is requested but that got no "
+            "invocation of its own is never laziness). The distributed side of parallelize (distribute_batch_calls / "
+            "route_calls) has no generated fact; it is covered by the differential runs only.",
     "design_ref": "DESIGN.md §6 C19",
 }
 
@@ -109,6 +118,27 @@ def needed(case):
     for p in case["progs"]:
         rec(p, fl)
     return acc
+
+
+def repeats(case):
+    """(some group holds the same member twice, some body makes the same single call twice)"""
+    in_group = in_body = False
+
+    def rec(n):
+        nonlocal in_group, in_body
+        singles = [st[1]["id"] for st in n["body"] if st[0] in ("call", "fire", "direct")]
+        in_body |= len(singles) != len(set(singles))
+        for st in n["body"]:
+            ms = [st[1]] if st[0] in ("call", "fire", "direct") else st[1]
+            if st[0] in ("group", "dpar"):
+                in_group |= len({m["id"] for m in ms}) != len(ms)
+            for m in ms:
+                rec(m)
+    if case["top"] in ("group", "dpar"):
+        in_group |= len({m["id"] for m in case["progs"]}) != len(case["progs"])
+    for p in case["progs"]:
+        rec(p)
+    return in_group, in_body
 
 
 def has_group(case):
@@ -180,9 +210,16 @@ def gen_node(rng, ids, depth, pool, p_ok, lazy_ok, conf=None):
                              weights=[4, 2, 2, 1, 0.6 if lazy_ok else 0])[0]
             if op in ("call", "direct", "fire"):
                 body.append([op, gen_node(rng, ids, depth + 1, pool, p_ok, lazy_ok)])
+                if rng.random() < 0.12:
+                    # the same call once more (same task, same arguments => same node id): a second invocation
+                    body.append([op, clone(body[-1][1])])
             else:
                 body.append([op, gen_group(rng, ids, depth + 1, pool, lazy_ok)])
     return node(i, mr, rf, rng.randint(0, 5), script, dflt, body)
+
+
+def clone(n):
+    return json.loads(json.dumps(n))
 
 
 def gen_group(rng, ids, depth, pool, lazy_ok):
@@ -196,6 +233,15 @@ def gen_group(rng, ids, depth, pool, lazy_ok):
     for j in range(n):
         p_ok = 0.6 if (j == n - 1 or not fail_last_only) else 1.0
         ms.append(gen_node(rng, ids, depth, gpool, p_ok, lazy_ok and not fail_last_only, conf))
+    # the same argument set more than once in the parallelized list (equal node id = equal spec = equal call_id).
+    # Guard-biased groups repeat a member that cannot fail, before the last one (the guard stays true).
+    r = rng.random()
+    for _ in range(0 if r < 0.6 else (1 if r < 0.9 else 2)):
+        if fail_last_only:
+            src, at = rng.randrange(len(ms) - 1), rng.randrange(len(ms))
+        else:
+            src, at = rng.randrange(len(ms)), rng.randrange(len(ms) + 1)
+        ms.insert(at, clone(ms[src]))
     return ms
 
 
@@ -211,7 +257,7 @@ def gen_case(rng, lazy_ok):
 
 
 def corpus_cases():
-    """fixed cases: the Coq witnesses of the refutations + the exhaustive retry-accounting enumeration of
+    """fixed cases: the Coq witnesses of the refutations + repeated-argument-set groups / calls + the exhaustive retry-accounting enumeration of
     leaf bodies: (max_retries 0..3) x (retry_for 3 settings) x (4 exception kinds) x (always raising |
     first success on attempt k = 1..max_retries+2), plain and direct flavour alternating."""
     cs = [
@@ -221,6 +267,29 @@ def corpus_cases():
         ("witness:retryerror-args", {"top": "call", "progs": [node(1, mr=1, dflt=[1, 0, 3])]}),
         ("witness:dpar-after-failure",
          {"top": "dpar", "progs": [node(1, base=2, dflt=[1, 3, 1]), node(2, base=3)]}),
+    ]
+    # repeated argument sets: one parallelized list holding the same call twice / three times (each element is
+    # its own invocation in every mode), with retries, nested, as a direct task; the same single call made twice
+    a, b = node(2, base=2), node(3, base=5)
+    flaky = node(2, mr=1, rf=2, base=3, script=[[1, 2, 1]])                 # KeyError first, then succeeds
+    sub = node(2, base=1, body=[["call", node(4, base=2)]])
+    cs += [
+        ("repeat:group-top", {"top": "group", "progs": [clone(a), clone(b), clone(a)]}),
+        ("repeat:group-top-all-same", {"top": "group", "progs": [clone(a), clone(a), clone(a)]}),
+        ("repeat:group-nested", {"top": "call", "progs": [node(1, body=[["group", [clone(a), clone(a), clone(b)]]])]}),
+        ("repeat:group-nested-subcalls", {"top": "call", "progs": [node(1, body=[["group", [clone(sub), clone(b), clone(sub)]]])]}),
+        ("repeat:group-retries", {"top": "call", "progs": [node(1, body=[["group", [clone(flaky), clone(flaky)]]])]}),
+        ("repeat:group-in-retried-parent",
+         {"top": "call", "progs": [node(1, mr=1, script=[[2, 0, 0]], body=[["group", [clone(a), clone(a)]]])]}),
+        ("repeat:dpar-top", {"top": "dpar", "progs": [clone(a), clone(b), clone(a), clone(b)]}),
+        ("repeat:dpar-nested", {"top": "direct", "progs": [node(1, body=[["dpar", [clone(b), clone(b)]]])]}),
+        ("repeat:two-groups", {"top": "call", "progs": [node(1, body=[["group", [clone(a), clone(a)]],
+                                                                        ["group", [clone(b), clone(a), clone(b)]]])]}),
+        ("repeat:call-twice", {"top": "call", "progs": [node(1, body=[["call", clone(a)], ["call", clone(a)]])]}),
+        ("repeat:direct-twice", {"top": "call", "progs": [node(1, body=[["direct", clone(flaky)], ["direct", clone(flaky)]])]}),
+        ("repeat:call-and-group", {"top": "call", "progs": [node(1, body=[["call", clone(a)], ["group", [clone(a), clone(a)]]])]}),
+        ("repeat:group-after-failure",
+         {"top": "call", "progs": [node(1, body=[["group", [clone(a), clone(a), node(5, dflt=[1, 1, 7]), clone(a)]]])]}),
     ]
     j = 0
     for mr in range(4):
@@ -314,7 +383,8 @@ def run_impl(mode, case, scratch, slots=1, tag="x", timeout=40.0, inject=None):
             elif top == "direct":
                 v = reg.direct[(p0["mr"], p0["rf"])](spec=p0)
             elif top == "group":
-                g = reg.plain[(p0["mr"], p0["rf"])].parallelize([{"spec": m} for m in progs])
+                task = reg.plain[(p0["mr"], p0["rf"])]
+                g = task.parallelize([T.spell(task, j, m) for j, m in enumerate(progs)])
                 reg.launched.extend(g.invocations)
                 v = sum(g.results)
             else:
@@ -466,6 +536,59 @@ def accounting(case, obs):
     return bad, stale
 
 
+def explain_sync(case, s_obs):
+    """Which launched sub-invocations sync mode may leave unexecuted, read off the sync run alone.
+    Sync mode runs every body inline in the caller's thread, so each execution knows the execution that
+    called it; every statement of an execution (recorded when it is launched) is matched, in order, against
+    the invocations executed under that execution:
+      * a fire-and-forget call executes nothing                       -> lazy 'unread-call'
+      * a read call / direct task executes one invocation of its node -> else SKIPPED
+      * a group executes one invocation PER ELEMENT, in order, up to and including the first member that
+        fails; members after it                                        -> lazy 'group-after-failure';
+        an element before it with no invocation of its own (e.g. a repeated argument set served from the
+        invocation of the earlier identical element)                   -> SKIPPED
+    Returns (lazy: node id -> kind, skipped: [(node id, statement kind)])."""
+    from collections import defaultdict, deque
+    kids = defaultdict(list)
+    for e in s_obs["log"]:
+        kids[e.get("parent")].append(e)
+    lazy: dict = {}
+    skipped: list = []
+
+    def scan(stmts, entries):
+        per = defaultdict(deque)          # node id -> final end of each invocation executed here, in order
+        last: dict = {}
+        for e in entries:
+            if e["inv"] not in last:
+                last[e["inv"]] = [e["node"], None]
+                per[e["node"]].append(last[e["inv"]])
+            last[e["inv"]][1] = e["end"]
+        for st in stmts:
+            if st["op"] == "fire":
+                lazy[st["ids"][0]] = "unread-call"
+            elif st["op"] in ("call", "direct"):
+                if per[st["ids"][0]]:
+                    per[st["ids"][0]].popleft()
+                else:
+                    skipped.append((st["ids"][0], st["op"]))
+            else:
+                stopped = False
+                for i in st["ids"]:
+                    if stopped:
+                        lazy.setdefault(i, "group-after-failure")
+                    elif not per[i]:
+                        skipped.append((i, st["op"]))
+                    else:
+                        end = per[i].popleft()[1]
+                        stopped = end is None or end[0] != "val"
+
+    top = case["top"]
+    scan([{"op": top, "ids": [p["id"] for p in case["progs"]]}], kids[None])
+    for e in s_obs["log"]:
+        scan(e.get("stmts", []), kids[e["idx"]])
+    return lazy, skipped
+
+
 def judge(case, s_obs, d_obs):
     """property verdicts for one distributed run against the sync run. Returns [(key, what)]."""
     out = []
@@ -491,14 +614,11 @@ def judge(case, s_obs, d_obs):
     cs, cd = counts_of(s_obs), counts_of(d_obs)
     if cs != cd:
         diff = sorted(i for i in set(cs) | set(cd) if cs[i] != cd[i])
-        # nodes launched in sync mode whose result was never requested (launched more often than executed invocations)
-        launched = Counter(i for e in s_obs["log"] for i in e["launched"])
-        executed = Counter()
-        for inv_entries in {e["inv"]: e for e in s_obs["log"]}.values():
-            executed[inv_entries["node"]] += 1
-        unread = {i for i in launched if executed[i] < launched[i]}
-        if case["top"] in ("group", "dpar"):
-            unread |= {p["id"] for p in case["progs"] if executed[p["id"]] == 0}
+        # nodes launched in sync mode that sync mode's laziness leaves unexecuted (result never requested / group
+        # member after a failing one); an element whose result IS requested but that got no invocation of its
+        # own (skipped) is never laziness
+        lazy, skipped = explain_sync(case, s_obs)
+        unread = set(lazy)
 
         def under_unread(i):
             while i is not None:
@@ -506,17 +626,22 @@ def judge(case, s_obs, d_obs):
                     return True
                 i = nodes[i][2]
             return False
-        if unread and all(under_unread(i) and cd[i] > cs[i] for i in diff):
-            kinds = {("unread-call" if nodes[i][1] == "fire" else "group-after-failure") for i in unread}
+        if unread and not skipped and all(under_unread(i) and cd[i] > cs[i] for i in diff):
+            kinds = set(lazy.values())
             for k in sorted(kinds):
-                ex = sorted(i for i in unread if ("unread-call" if nodes[i][1] == "fire" else "group-after-failure") == k)
+                ex = sorted(i for i in unread if lazy[i] == k)
                 out.append((f"lazy-sync:{k}",
                             f"{mode}: node(s) {ex} launched but never executed in sync mode (result not requested"
                             + (", the lazy results generator stopped at a failing member" if k != "unread-call" else "")
                             + f"); body executions sync {dict(sorted(cs.items()))} vs distributed {dict(sorted(cd.items()))}"))
         else:
+            why = ""
+            if skipped:
+                why = ("; in sync mode " + ", ".join(f"node {i} ({'element of a ' + k if k in ('group', 'dpar') else k})" for i, k in skipped[:4])
+                       + " had its result requested but was not executed as an invocation of its own (the same call occurs"
+                         " more than once: every call / every element of a parallelized list is its own invocation when distributed)")
             out.append((f"count-mismatch:{mode}",
-                        f"body executions differ at node(s) {diff}: sync {dict(sorted(cs.items()))}, {mode} {dict(sorted(cd.items()))}"))
+                        f"body executions differ at node(s) {diff}: sync {dict(sorted(cs.items()))}, {mode} {dict(sorted(cd.items()))}{why}"))
     if s_obs["top_retries"] != d_obs["top_retries"] and so == do:
         out.append((f"num-retries:{mode}", f"num_retries of the top invocation: sync {s_obs['top_retries']}, {mode} {d_obs['top_retries']}"))
     if d_obs.get("unfinished"):
@@ -715,6 +840,9 @@ def main(ctx: Ctx) -> int:
             "total": len(cases), "leaf_enumeration": sum(1 for n, _ in cases if n.startswith("leaf")),
             "random_guard_biased": sum(1 for n, _ in cases if n.startswith("rnd")),
             "random_lazy_allowed": sum(1 for n, _ in cases if n.startswith("lazy")),
+            "repeated_argument_set_corpus": sum(1 for n, _ in cases if n.startswith("repeat")),
+            "cases_with_a_repeated_group_member": sum(1 for _, c in cases if repeats(c)[0]),
+            "cases_with_a_repeated_single_call": sum(1 for _, c in cases if repeats(c)[1]),
             "top_flavour": dict(stats["top"]), "launching_statement_kinds": dict(stats["statement_kinds"]),
             "model_guard_true": stats["guarded"], "model_guard_false": stats["unguarded"],
             "sync_outcomes": dict(stats["outcome"]), "cases_with_a_retry": stats["with_retry"],
@@ -736,6 +864,8 @@ def main(ctx: Ctx) -> int:
         "groups aggregated with sum, as direct tasks and direct tasks with parallel_func; max_retries 0..3; retry_for absent | "
         "(ValueError,) | (ValueError, KeyError)",
         "a group's subtree uses one exception, so the exception its parent sees does not depend on completion order",
+        "a node id names an argument set: repeated members of a group / repeated calls in a body carry the same id and the "
+        "same spec (same call_id); elements of a parallelized list are spelled dict / tuple / Arguments by position",
         "serialiser oracle (state backend exception round trip) measured per run and given to run_dist as tr_drop",
         "distributed runs use the real ThreadRunner in a thread, 2 ms loop sleeps, GIL switch interval 0.5 ms; verdicts use "
         "outcome, per-node execution counts and final num_retries only; a verdict of a distributed run must reproduce on a "
@@ -745,14 +875,15 @@ def main(ctx: Ctx) -> int:
     ]
     ctx.trusted += [
         "harness/translate/sync_dist.py recognises the retry handlers, set_invocation_retry, Task.retriable_exceptions, "
-        "direct_task.sync_wrapper and the max_retries default by exact AST shape",
+        "direct_task.sync_wrapper, the sync branch of distribute_calls and the max_retries default by exact AST shape",
         "Model/SyncDist.v interpreters are hand-written; tied by the three-way correspondence on every case",
     ]
     if info.get("degraded"):
         ctx.notes["translator_degraded"] = info.get("error")
     return ctx.finish(
-        rule="cases = 4 refutation witnesses + exhaustive leaf enumeration (max_retries x retry_for x exception kind x always-"
-             "raising/first success on attempt k) + seeded random programs (depth <= 3, guard-biased and lazy-allowed streams); "
+        rule="cases = 4 refutation witnesses + 13 repeated-argument-set cases + exhaustive leaf enumeration (max_retries x retry_for x exception kind x always-"
+             "raising/first success on attempt k) + seeded random programs (depth <= 3, guard-biased and lazy-allowed streams; ~40% of "
+             "the groups repeat a member, ~12% of the single calls are made twice); "
              "each case executed in sync mode, on mem+ThreadRunner and SQLite+ThreadRunner (1 slot; 2 slots when it has a group) "
              "and on both model interpreters; evaluations = implementation executions compared; distinct_nontrivial = distinct cases")
 
